@@ -2,6 +2,11 @@ import UbxModel.Gen.SrcServer
 namespace SrcEquiv
 open Ubx
 
+theorem srv_check_poll (env : Env) (sv : Py.Server) (req : Req) (f : RFrame) :
+    Gen.Src.Server._check_poll env sv req f = (.ok (decide (f.cid = req.cid)), sv) := by
+  unfold Gen.Src.Server._check_poll
+  by_cases h : f.cid = req.cid <;> simp [h, Py.finish]
+
 theorem decode_ack_shape (pl : List Nat) (vs : List Val) (rem : List Nat)
     (h : Gen.UbxAckAck.decode pl = .ok (vs, rem)) : ∃ a b : Int, vs = [.int a, .int b] := by
   simp only [Gen.UbxAckAck, Table.decode, Kind.unpack] at h
